@@ -50,13 +50,13 @@ def die2(msg):
     sys.exit(2)
 
 
-def build(scratch, race):
+def build(scratch, race, src="/repo"):
     t0 = time.time()
     if not os.path.exists(os.path.join(V, "bin", "simprep")):
         r = subprocess.run(["bash", os.path.join(V, "setup.sh")], env=ENV, capture_output=True, text=True)
         if r.returncode != 0:
             die2("setup failed:\n" + r.stdout + r.stderr)
-    args = ["bash", os.path.join(V, "build.sh"), scratch] + (["race"] if race else [])
+    args = ["bash", os.path.join(V, "build.sh"), scratch, "race" if race else "norace", src]
     r = subprocess.run(args, env=ENV, capture_output=True, text=True)
     if r.returncode != 0:
         die2("build of the rewritten scratch copy failed (not a violation):\n" + r.stdout[-4000:] + r.stderr[-6000:])
@@ -77,7 +77,7 @@ def run_bin(binary, args, timeout, cwd):
     out = r.stdout.decode("utf8", "replace")
     err = r.stderr.decode("utf8", "replace")
     results = []
-    for line in out.splitlines():
+    for line in out.split("\n"):
         if line.startswith("SIMRESULT "):
             try:
                 results.append(json.loads(line[10:]))
@@ -210,6 +210,7 @@ def main():
     ap.add_argument("--runs", type=int, default=None)
     ap.add_argument("--budget", type=float, default=None)
     ap.add_argument("--keep", action="store_true")
+    ap.add_argument("--src", default="/repo", help="source tree to rewrite (default /repo; other values are for testing seeded changes only)")
     ap.add_argument("--no-evidence", action="store_true")
     a = ap.parse_args()
     prop = a.prop
@@ -233,7 +234,9 @@ def main():
 
 def run_check(a, prop, tier, seed, spec, scratch, t_start):
     race = bool(spec.get("race"))
-    binary, simprep_report, build_s = build(scratch, race)
+    binary, simprep_report, build_s = build(scratch, race, a.src)
+    if a.src != "/repo":
+        a.no_evidence = True
     log("built in %.1fs" % build_s)
     if simprep_report.get("unhandled"):
         log("rewriter left native:", simprep_report["unhandled"])
